@@ -54,7 +54,7 @@ def gen_case(rnd, i):
     d = rnd.choice(ALL + ["pair", "pair"])
     d2 = rnd.choice(ALL)
     r = rnd.randint(0, 3)
-    sig = [rnd.choice([rnd.randint(1, 3), "N", "M", None]) for _ in range(r)]
+    sig = [rnd.choice([rnd.randint(1, 3), "N", "M", None, 0] if rnd.random() < 0.3 else [rnd.randint(1, 3), "N", "M", None]) for _ in range(r)]   # 0: a declared static extent of zero
     conc = [s if isinstance(s, int) else rnd.choice([0, 1, 2, 3]) for s in sig]
     sym = {}
     for k, s in enumerate(sig):
